@@ -323,6 +323,9 @@ EXTRA_EFF = [  # constant before a variable; constants inside function terms; sa
     # one effect group reads what another group writes (all right-hand sides are read in the state before the action)
     "(and (assign (g ?x) (g ?y)) (when (r) (assign (g ?y) (g ?x))))",
     "(and (increase (f) 1) (when (p ?x) (assign (g ?x) (f))) (when (not (p ?x)) (decrease (g ?y) (f))))",
+    # a numeric effect inside a quantified effect reads a fluent that the same action changes elsewhere
+    "(and (decrease (f) 1) (forall (?z - t1) (when (p ?z) (increase (g ?z) (f)))))",
+    "(and (forall (?z - t1) (when (q ?x ?z) (assign (g ?z) (g ?x)))) (increase (g ?x) 2))",
     # quantified effects range over the domain's constants as well
     "(and (m c) (forall (?z - t1) (when (not (p ?z)) (p ?z))))", "(and (not (p c)) (forall (?z - object) (when (m ?z) (not (m ?z)))))",
     # an unconditional numeric effect next to a quantified effect; two when-effects that make the same change
@@ -394,9 +397,19 @@ def deep_programs():
                "tags": ["layout", "deep-types"], "header": "layout"}
 
 
+TWO_TABLES = [  # a quantified precondition and a quantified effect: used with two object tables over ONE Domain object
+    ("xy", "(and (forall (?z - t1) (or (p ?z) (m ?z))))", "(and (forall (?z - t1) (when (not (q ?x ?z)) (q ?x ?z))))"),
+    ("xy", "(and (p ?x) (forall (?z - object) (or (m ?z) (not (m ?z)))))", "(and (forall (?z - object) (when (not (m ?z)) (m ?z))))"),
+    # no parameters: the second problem declares NO object at all, the quantifiers still range over the constant
+    ("none", "(and (forall (?z - t1) (or (m ?z) (not (p ?z)))))", "(and (m c) (forall (?z - t1) (when (not (p ?z)) (p ?z))))"),
+]
+
+
 def eff_programs(tier: str):
     yield from layout_programs()
     yield from deep_programs()
+    for prof, pre, eff in TWO_TABLES:
+        yield program(prof, pre, eff, ["two-tables", "forall"])
     # effects that read what another effect of the same action writes (zero-arity and parameterised fluents)
     for text in MUTUAL:
         yield program("xy", "(and)", text, ["mutual"])
